@@ -1,5 +1,6 @@
 """Client for the Rust bridge (the real anthem code, rebuilt from /repo on every run)."""
 import os
+import select
 import subprocess
 import sys
 import time
@@ -69,6 +70,10 @@ class BridgePanic(Exception):
     pass
 
 
+class BridgeTimeout(Exception):
+    pass
+
+
 class Bridge:
     def __init__(self, binary=BRIDGE_BIN):
         self.binary = binary
@@ -88,13 +93,19 @@ class Bridge:
                 self.proc.kill()
             self.proc = None
 
-    def call(self, *req):
+    def call(self, *req, timeout=None):
         """Send (op args...) and return the payload tuple of (ok ...)."""
         if self.proc is None or self.proc.poll() is not None:
             self.start()
         line = render(tuple(req))
         self.proc.stdin.write(line + '\n')
         self.proc.stdin.flush()
+        if timeout is not None:
+            ready, _, _ = select.select([self.proc.stdout], [], [], timeout)
+            if not ready:
+                self.proc.kill()
+                self.proc = None
+                raise BridgeTimeout('no answer within %ss: %s' % (timeout, line[:300]))
         resp = self.proc.stdout.readline()
         self.calls += 1
         if not resp:
